@@ -37,8 +37,8 @@ type TxInSpec struct {
 // TxSpec describes one generated transaction.
 type TxSpec struct {
 	Ins   []TxInSpec `json:"ins"`
-	Rel   int        `json:"rel"`             // -1 irrelevant; 0..5: carries subscription value Rel
-	InIn  bool       `json:"in_input"`        // relevant push sits in the first input's unlocking script
+	Rel   int        `json:"rel"`              // -1 irrelevant; 0..5: carries subscription value Rel
+	InIn  bool       `json:"in_input"`         // relevant push sits in the first input's unlocking script
 	NOuts int        `json:"n_outs,omitempty"` // extra plain outputs (spendable by later txs)
 }
 
